@@ -92,7 +92,8 @@ func runCheck(id, tier string) int {
 		archs = append(archs, "386")
 	}
 	rep := NewReport(id, tier)
-	rep.Explain = p.explain
+	rep.Explain = p.explain + " The rule set of this check has grown since this summary was written: per_rule in this file lists " +
+		"every rule that ran with its obligation counts; DESIGN.md sections 12.4-12.7 give the one-line necessary condition of each added rule."
 	rep.Assume = append(rep.Assume, p.assume...)
 	rep.Assume = append(rep.Assume,
 		"go/types + go/ssa (x/tools v0.29.0) model the program faithfully; VTA call graph over-approximates dynamic calls",
